@@ -123,6 +123,10 @@ func TestCheck(t *testing.T) {
 	r.Require("shared_list_concurrent_verdicts_compared_cached_storage", 60000)
 	r.Require("shared_list_concurrent_verdicts_compared_cache_off_twin", 60000)
 	r.Require("rl_window_refreshes", 8)
+	r.Require("rl_window_group_filters_built_inside_the_window", 2000)
+	r.Require("rl_window_group_probes_after_refresh_returned", 2000)
+	r.Require("seq_qtype_pair_mod_256_low_type_first", 100)
+	r.Require("seq_qtype_pair_mod_256_high_type_first", 100)
 	r.Require("rl_window_reader_calls_between_list1_recompiled_and_refresh_return", 5000)
 	r.Require("rl_window_probes_after_refresh_returned", 2000)
 	r.Require("ss_stress_refreshes", 12)
@@ -481,7 +485,7 @@ func (h *seqHist) evalQuery(kind string, q *requester, ver int, qu query) {
 	if qu.Resp {
 		dir = "resp"
 	}
-	r.Eval(strings.Join([]string{kind, q.Name, dns.TypeToString[qu.QType], dir, ou.Kind, family(ou.List), share}, "|"), nontrivial)
+	r.Eval(strings.Join([]string{kind, q.Name, dns.Type(qu.QType).String(), dir, ou.Kind, family(ou.List), share}, "|"), nontrivial)
 	h.logf("%s %s custom_v%d %s: cached=%s uncached=%s fresh=%s", kind, q.Name, ver, qu, short(oc), short(ou), short(of))
 
 	pk := q.Name + "|" + qu.String()
@@ -821,6 +825,7 @@ func (h *seqHist) probeStorageChanges(old content) {
 				for _, qt := range qts {
 					h.evalQuery("probe", q, q.customVer(), query{Host: "typed." + l + ".test", QType: qt})
 				}
+				h.qtypePairs(q, l)
 				j := max(h.c.RL[id], old.RL[id], 1)
 				h.evalQuery("probe", q, q.customVer(), query{Host: "answer.example.test", QType: dns.TypeA, Resp: true, Ans: fmt.Sprintf("a:10.7.%d.%d", x, j)})
 			}
@@ -830,6 +835,9 @@ func (h *seqHist) probeStorageChanges(old content) {
 		if old.Svc[id] != h.c.Svc[id] {
 			l := label(id)
 			h.probe(id, old.Svc[id], h.c.Svc[id], func(j int) []string { return []string{fmt.Sprintf("s%d.%s.test", j, l), "fixed." + l + ".test"} }, h.enabledFor(id))
+			if who := h.enabledFor(id); len(who) > 0 && h.c.Svc[id] > 0 && !h.aborted {
+				h.qtypePair(who[h.rng.IntN(len(who))], "typed."+l+".test", dns.TypeAAAA)
+			}
 		}
 	}
 	if old.SSGen != h.c.SSGen {
@@ -1081,4 +1089,31 @@ func (h *seqHist) zeroRuleSandwich(kind string) {
 	for _, p := range asked[:min(len(asked), 6)] {
 		h.evalQuery("probe", p.q, p.q.customVer(), p.qu)
 	}
+}
+
+// qtypePair asks for host with question type low and low+256, in a seeded
+// order, one right after the other: two types that differ by 256 are different
+// cache keys (a list rule with $dnstype matches only one of them).
+func (h *seqHist) qtypePair(q *requester, host string, low uint16) {
+	if h.aborted {
+		return
+	}
+	qts := []uint16{low, low + 256}
+	b := "seq_qtype_pair_mod_256_low_type_first"
+	if h.rng.IntN(2) == 0 {
+		qts = []uint16{low + 256, low}
+		b = "seq_qtype_pair_mod_256_high_type_first"
+	}
+	for _, qt := range qts {
+		h.evalQuery("probe", q, q.customVer(), query{Host: host, QType: qt})
+	}
+	h.r.Bucket(b, 1)
+}
+
+// qtypePairs: the type-specific rules of rule list l against A/CAA(257) and
+// AAAA/TYPE284.
+func (h *seqHist) qtypePairs(q *requester, l string) {
+	h.qtypePair(q, "typed."+l+".test", dns.TypeAAAA) // rule for AAAA
+	h.qtypePair(q, "typeda."+l+".test", dns.TypeA)   // rule for A
+	h.qtypePair(q, "typedc."+l+".test", dns.TypeA)   // rule for CAA (257)
 }
